@@ -169,10 +169,14 @@ func (e *Extractor) extractPrefixes(re *syntax.Regexp, depth int) *Seq {
 		}
 		// Direct literal: "hello" → ["hello"]
 		bytes := runeSliceToBytes(re.Rune)
+		exact := true
 		if len(bytes) > e.config.MaxLiteralLen {
+			// A truncated literal is only a prefix of the match: it must not be
+			// reported as complete, or the prefilter hit is taken as the match.
 			bytes = bytes[:e.config.MaxLiteralLen]
+			exact = false
 		}
-		return NewSeq(NewLiteral(bytes, true))
+		return NewSeq(NewLiteral(bytes, exact))
 
 	case syntax.OpConcat:
 		// Cross-product expansion through the entire concatenation.
@@ -589,11 +593,13 @@ func (e *Extractor) extractSuffixes(re *syntax.Regexp, depth int) *Seq {
 		}
 		// Direct literal
 		bytes := runeSliceToBytes(re.Rune)
+		exact := true
 		if len(bytes) > e.config.MaxLiteralLen {
-			// For suffix, take the LAST MaxLiteralLen bytes
+			// For suffix, take the LAST MaxLiteralLen bytes (no longer the whole match)
 			bytes = bytes[len(bytes)-e.config.MaxLiteralLen:]
+			exact = false
 		}
-		return NewSeq(NewLiteral(bytes, true))
+		return NewSeq(NewLiteral(bytes, exact))
 
 	case syntax.OpConcat:
 		// Concatenation: take suffix from LAST sub-expression and extend with preceding literals
